@@ -547,6 +547,24 @@ def gen_dts(src):
     named_a = src.bool(0.35)
     ta = gen_instant(src, named_a)
     ta, a = render(src, ta, named_a)
+    if src.bool(0.08):
+        # three date-times in ONE zone on the day of a daylight-saving switch, on both sides of it
+        name = src.choice(zones.NEAR_ZONES)
+        sw = src.choice(zones.switches(name))
+        texts = []
+        for _ in range(3):
+            for _try in range(10):
+                secs = sw + src.choice([1, -1]) * src.int(0, 17) * 600
+                if zones.unambiguous_local(name, secs):
+                    break
+            else:
+                secs = sw + 5 * 3600
+            t = secs * cal.NS
+            if src.bool(0.25):
+                texts.append(fmt_dt(cal.fields_from_instant(t, 0), "Z"))
+            else:
+                texts.append(fmt_dt(cal.fields_from_instant(t, zones.offset_at(name, secs)), "@" + name))
+        return {"a": texts[0], "b": texts[1], "c": texts[2], "how": "same-zone-switch-day"}
     how = src.weighted([(3, "same-instant"), (3, "close"), (2, "day"), (2, "independent"), (1, "far")])
     out = []
     lo = cal.days_from_civil(-cal.MAX_YEAR, 1, 2) * cal.NS_DAY
